@@ -11,11 +11,20 @@ let mode_of = function
 let flag_name = function NoOp -> "NoOp" | AddOne -> "AddOne" | SubOne -> "SubOne"
 
 let fl_str (((s, e), p) : fl) = hx s ^ " " ^ hx e ^ " " ^ hx p
+(* (0, e <> 0) is an infinity: the harness prints it as `inf 0` / `-inf 0` *)
+let se_str s e =
+  if Zar.sign s = 0 && Zar.sign e <> 0 then (if Zar.sign e > 0 then "inf 0" else "-inf 0") else hx s ^ " " ^ hx e
 let ia_str = function IExact v -> hx v ^ " Exact" | IInexact (v, r) -> hx v ^ " " ^ flag_name r
 let ap_str np = function
-  | AExact (s, e) -> hx s ^ " " ^ hx e ^ " Exact " ^ hx np
-  | AInexact (s, e, r) -> hx s ^ " " ^ hx e ^ " " ^ flag_name r ^ " " ^ hx np
-let res_str f = function Ok v -> "ok " ^ f v | Panic _ -> "panic" | _ -> "other"
+  | AExact (s, e) -> se_str s e ^ " Exact " ^ hx np
+  | AInexact (s, e, r) -> se_str s e ^ " " ^ flag_name r ^ " " ^ hx np
+let res_str f = function Ok v -> "ok " ^ f v | Panic OperateWithInf -> "panic OperateWithInf" | Panic _ -> "panic" | _ -> "other"
+let asig = function AExact (s, _) -> s | AInexact (s, _, _) -> s
+let aexp = function AExact (_, e) -> e | AInexact (_, e, _) -> e
+let is_assert_panic = function
+  | [ "panic"; c ] -> String.length c >= 27 && String.sub c 0 27 = "Undocumented:assertionfaile"
+  | _ -> false
+let directed = function MZero | MAway | MUp | MDown -> true | _ -> false
 
 let got_str got = String.concat " " got
 
@@ -25,20 +34,57 @@ let fidelity (cands : string list) got =
 
 let legal b sg p = Zar.sign p = 0 || Zar.leq (dlen b sg) p
 
-let judge_float op args got =
+(* infinities (significand token inf / -inf): the documented panic for every entry point; with_precision and the
+   same-base conversion are judged against the as-is models (the property speaks about finite floats only) *)
+let judge_inf op args got sg =
   let b = z (List.nth args 0) and m = mode_of (List.nth args 1) and p = z (List.nth args 2) in
-  let (s, e) = normalize b (z (List.nth args 3)) (z (List.nth args 4)) in
+  let s = Zar.zero and e = Zar.of_int sg in
+  let rf = round_fract b and dub = dub_exact b in
+  let asis = match op with
+    | "trunc" -> res_str fl_str (trunc_full b dub p s e)
+    | "floor" -> res_str fl_str (floor_full b dub rf p s e)
+    | "ceil" -> res_str fl_str (ceil_full b dub rf p s e)
+    | "round" -> res_str fl_str (round_full b dub rf p s e)
+    | "fract" -> res_str fl_str (fract_full b dub p s e)
+    | "split" -> res_str (fun (t, f) -> fl_str t ^ " " ^ fl_str f) (split_full b dub p s e)
+    | "to_int" -> res_str ia_str (to_int_full b dub rf m p s e)
+    | "repr_to_int" -> res_str ia_str (repr_to_int_full b dub s e)
+    | "with_precision" -> let np = z (List.nth args 5) in res_str (ap_str np) (with_precision_full b rf m p s e np)
+    | "wbp_same" -> let np = z (List.nth args 5) in res_str (ap_str np) (with_same_base_full b rf m s e np)
+    | _ -> "unknown-op" in
+  let want = match op with "with_precision" | "wbp_same" -> asis | _ -> "panic OperateWithInf" in
+  expect ~nt:false ~extra:("cls=inf-" ^ op ^ fidelity [ asis ] got) want got
+
+let judge_float op args got =
+  let sigtok = List.nth args 3 in
+  if sigtok = "inf" then judge_inf op args got 1 else if sigtok = "-inf" then judge_inf op args got (-1) else
+  let b = z (List.nth args 0) and m = mode_of (List.nth args 1) and p = z (List.nth args 2) in
+  let etok = List.nth args 4 in
+  let two63 = Zar.shift_left Zar.one 63 in
+  let e0 = if etok = "min" then Zar.neg two63 else if etok = "max" then Zar.pred two63 else z etok in
+  let (s, e) = normalize b (z (List.nth args 3)) e0 in
   if not (legal b s p) then skip "operand-exceeds-precision" else
   let neg = Zar.sign e < 0 in
   let d = dlen b s in
+  (* far below one and an exponent whose power cannot be formed: the power-free specification
+     (RoundOpsTinyProof: int_spec_tiny, fract_sig_tiny, to_int_spec_tiny under dlen s + 1 <= -e) *)
+  let far = Zar.gt (Zar.abs e) (Zar.of_int 3_000_000) in
+  let tiny = neg && far && Zar.leq (Zar.add d Zar.one) (Zar.neg e) in
+  if far && neg && not tiny then skip "power-too-large" else
+  if far && not neg && (op = "to_int" || op = "repr_to_int") then skip "result-too-large" else
+  let int_spec b mm s e = if tiny then int_tiny mm s else int_spec b mm s e in
+  let fract_sig_spec b s e = if tiny then s else fract_sig_spec b s e in
+  let to_int_spec b mm s e = if tiny then to_int_tiny mm s else to_int_spec b mm s e in
   let cls =
     if not neg then "int"
+    else if tiny then "tiny"
     else if Zar.lt (Zar.add e d) (Zar.of_int (-1)) then "small"
     else if Zar.leq (Zar.add e d) Zar.zero then "below1"
     else "mixed" in
-  let tie = neg && Zar.equal (Zar.mul (Zar.of_int 2) (Zar.abs (fract_sig_spec b s e))) (Zar.pow b (Zar.to_int (Zar.neg e))) in
+  let tie = neg && not tiny && Zar.equal (Zar.mul (Zar.of_int 2) (Zar.abs (fract_sig_spec b s e))) (Zar.pow b (Zar.to_int (Zar.neg e))) in
   let extra = "cls=" ^ cls ^ (if tie then "-tie" else "") ^ (if Zar.sign p = 0 then "-unl" else "") in
   let dubs = [ dub_exact b; dub_plus b ] in
+  let rf = round_fract b in
   let nt = neg in
   (* expected float (value part) of an integer result *)
   let int_float mm = if neg then normalize b (int_spec b mm s e) Zar.zero else (s, e) in
@@ -58,29 +104,61 @@ let judge_float op args got =
     | _ -> fail (want_fl wants) in
   let fres f = List.map (fun dub -> res_str fl_str (f dub)) dubs in
   match op with
-  | "trunc" -> fl_verdict [ int_float MZero ] (List.map (fun dub -> "ok " ^ fl_str (trunc_asis b dub p s e)) dubs)
-  | "floor" -> fl_verdict [ int_float MDown ] (fres (fun dub -> floor_asis b dub false p s e))
-  | "ceil" -> fl_verdict [ int_float MUp ] (fres (fun dub -> ceil_asis b dub false p s e))
-  | "round" -> fl_verdict [ int_float MHalfAway ] (fres (fun dub -> round_asis b dub false p s e))
-  | "fract" -> fl_verdict [ fract_float () ] (List.map (fun dub -> "ok " ^ fl_str (fract_asis b dub false p s e)) dubs)
+  | "trunc" -> fl_verdict [ int_float MZero ] (fres (fun dub -> trunc_full b dub p s e))
+  | "floor" -> fl_verdict [ int_float MDown ] (fres (fun dub -> floor_full b dub rf p s e))
+  | "ceil" -> fl_verdict [ int_float MUp ] (fres (fun dub -> ceil_full b dub rf p s e))
+  | "round" -> fl_verdict [ int_float MHalfAway ] (fres (fun dub -> round_full b dub rf p s e))
+  | "fract" -> fl_verdict [ fract_float () ] (fres (fun dub -> fract_full b dub p s e))
   | "split" ->
       fl_verdict [ int_float MZero; fract_float () ]
-        (List.map (fun dub -> let (t, f) = split_asis b dub p s e in "ok " ^ fl_str t ^ " " ^ fl_str f) dubs)
+        (List.map (fun dub -> res_str (fun (t, f) -> fl_str t ^ " " ^ fl_str f) (split_full b dub p s e)) dubs)
   | "to_int" ->
       let want = "ok " ^ ia_str (to_int_spec b m s e) in
-      let cands = List.map (fun dub -> res_str ia_str (to_int_asis b dub false m p s e)) dubs in
-      expect ~nt ~extra:(extra ^ fidelity cands got) want got
+      let cands = List.map (fun dub -> res_str ia_str (to_int_full b dub rf m p s e)) dubs in
+      let huge = if Zar.gt (Zar.abs e) (Zar.of_int 4000) then "-huge" else "" in
+      expect ~nt ~extra:(extra ^ huge ^ fidelity cands got) want got
   | "repr_to_int" ->
       let want = "ok " ^ ia_str (to_int_spec b MZero s e) in
-      let cands = List.map (fun dub -> "ok " ^ ia_str (repr_to_int_asis b dub s e)) dubs in
+      let cands = List.map (fun dub -> res_str ia_str (repr_to_int_full b dub s e)) dubs in
       expect ~nt ~extra:(extra ^ fidelity cands got) want got
   | "with_precision" ->
       let np = z (List.nth args 5) in
       let want = "ok " ^ ap_str np (norm_approx b (with_precision_spec b m s e np)) in
-      let cands = [ "ok " ^ ap_str np (with_precision_asis b false m p s e np) ] in
+      let cands = [ res_str (ap_str np) (with_precision_full b rf m p s e np) ] in
       let rounded = Zar.sign np > 0 && Zar.gt d np in
       expect ~nt:rounded ~extra:("cls=wp-" ^ (if rounded then "round" else "keep") ^ (if Zar.sign p = 0 then "-unl" else "") ^ fidelity cands got) want got
+  | "wbp_same" ->
+      (* conversion to the same base: one rounding to np digits whatever the old precision (C10_same_base_single_rounding) *)
+      let np = z (List.nth args 5) in
+      let want = "ok " ^ ap_str np (norm_approx b (with_precision_spec b m s e np)) in
+      let cands = [ res_str (ap_str np) (with_same_base_full b rf m s e np) ] in
+      let rounded = Zar.sign np > 0 && Zar.gt d np in
+      expect ~nt:rounded ~extra:("cls=samebase-" ^ (if rounded then "round" else "keep") ^ fidelity cands got) want got
+  | "wr_wp" -> fail "handled-elsewhere"
+  | "wp2" ->
+      (* two single roundings, the second of the rounded value; for the directed modes the value must also be the
+         single rounding of the original (C10_directed_digits_twice), for the nearest modes it may differ *)
+      let np1 = z (List.nth args 5) and np2 = z (List.nth args 6) in
+      let a1 = norm_approx b (with_precision_spec b m s e np1) in
+      let a2 = norm_approx b (with_precision_spec b m (asig a1) (aexp a1) np2) in
+      let want = "ok " ^ ap_str np1 a1 ^ " " ^ ap_str np2 a2 in
+      let cands = [ res_str (fun (x, y) -> ap_str np1 x ^ " " ^ ap_str np2 y) (with_precision_twice b rf m p s e np1 np2) ] in
+      let single = norm_approx b (with_precision_spec b m s e (if Zar.sign np2 = 0 || (Zar.sign np1 > 0 && Zar.lt np1 np2) then np1 else np2)) in
+      let same = Zar.equal (asig single) (asig a2) && Zar.equal (aexp single) (aexp a2) in
+      if directed m && not same then fail "directed-mode-double-rounding-differs-from-single"
+      else
+        let both = Zar.sign np1 > 0 && Zar.gt d np1 && Zar.sign np2 > 0 && Zar.gt (dlen b (asig a1)) np2 in
+        expect ~nt:both ~extra:("cls=twice-" ^ (if directed m then "directed" else "nearest") ^ (if same then "-same" else "-differs") ^ fidelity cands got) want got
   | _ -> fail ("unknown-op-" ^ op)
+
+let judge_wr_wp args got =
+  let b = z (List.nth args 0) and m2 = mode_of (List.nth args 2) and p = z (List.nth args 3) in
+  let (s, e) = normalize b (z (List.nth args 4)) (z (List.nth args 5)) and np = z (List.nth args 6) in
+  if not (legal b s p) then skip "operand-exceeds-precision" else
+  let want = "ok " ^ ap_str np (norm_approx b (with_precision_spec b m2 s e np)) in
+  let cands = [ res_str (ap_str np) (with_precision_full b (round_fract b) m2 p s e np) ] in
+  let rounded = Zar.sign np > 0 && Zar.gt (dlen b s) np in
+  expect ~nt:rounded ~extra:("cls=newmode-" ^ (if rounded then "round" else "keep") ^ fidelity cands got) want got
 
 let judge_rat op args got =
   let n0 = z (List.nth args 0) and d0 = z (List.nth args 1) in
@@ -96,12 +174,12 @@ let judge_rat op args got =
   let tie = Zar.equal (Zar.mul (Zar.of_int 2) (Zar.abs (Zar.rem n d))) d in
   let extra = "cls=" ^ (if relaxed then "relaxed" else "rbig") ^ (if tie then "-tie" else if nt then "-frac" else "-int") in
   let want, asis = match base with
-    | "trunc" -> hx t, hx (rat_trunc n d)
-    | "floor" -> hx (spec_round MDown n0 d0), hx (rat_floor n d)
-    | "ceil" -> hx (spec_round MUp n0 d0), hx (rat_ceil n d)
-    | "round" -> hx (spec_round MHalfAway n0 d0), hx (rat_round n d)
-    | "fract" -> q2 fr, q2 (rat_fract n d)
-    | "split" -> hx t ^ " " ^ q2 fr, (let (a, f) = rat_split n d in hx a ^ " " ^ q2 f)
+    | "trunc" -> hx t, hx (rat_trunc_gen n d)
+    | "floor" -> hx (spec_round MDown n0 d0), hx (rat_floor_gen n d)
+    | "ceil" -> hx (spec_round MUp n0 d0), hx (rat_ceil_gen n d)
+    | "round" -> hx (spec_round MHalfAway n0 d0), hx (rat_round_gen n d)
+    | "fract" -> q2 fr, q2 (rat_fract_gen n d)
+    | "split" -> hx t ^ " " ^ q2 fr, (let (a, f) = rat_split_at_point_gen n d in hx a ^ " " ^ q2 f)
     | _ -> failwith ("op " ^ op) in
   expect ~nt ~extra:(extra ^ fidelity [ "ok " ^ asis ] got) ("ok " ^ want) got
 
@@ -131,6 +209,44 @@ let judge op args got =
       let c = Zar.compare (Zar.mul (Zar.of_int 2) (Zar.abs n)) (Zar.abs d) in
       let cls = if Zar.sign n = 0 then "zero" else if c = 0 then "tie" else if c < 0 then "lt" else "gt" in
       expect ~nt:(Zar.sign n <> 0) ~extra:("cls=ratio-" ^ cls ^ (if Zar.sign d < 0 then "-negden" else "") ^ fidelity [ asis ] got) ("ok " ^ adj_name want) got
+  | "round_fract_any" ->
+      (* the regenerated body (coarse f32 tests switched off: they never contradict the exact comparison, C03) behind the
+         regenerated assertion; the harness is built with debug assertions *)
+      let b = z (List.nth args 0) and m = mode_of (List.nth args 1) in
+      let i = z (List.nth args 2) and f = z (List.nth args 3) and k = z (List.nth args 4) in
+      let bk = Zar.pow b (Zar.to_int k) in
+      let inside = Zar.lt (Zar.abs f) bk in
+      let off _ _ = false in
+      let model = if round_fract_pre_gen b f k then "ok " ^ flag_name (round_fract_gen off off (round_low_part m) b i f k) else "panic-assert" in
+      let gots = if is_assert_panic got then [ "panic-assert" ] else got in
+      let fid = if got_str gots = model then " asis=same" else " asis=diff" in
+      let cls = "cls=anyfract-" ^ (if not inside then "outside" else if Zar.sign k = 0 then "prec0" else if Zar.sign f = 0 then "zero" else "inside") in
+      if inside then
+        let want = Zar.sub (spec_round m (Zar.add (Zar.mul i bk) f) bk) i in
+        expect ~nt:(Zar.sign f <> 0) ~extra:(cls ^ fid) ("ok " ^ adj_name want) got
+      else if is_assert_panic got then pass ~nt:false ~extra:(cls ^ fid) () else fail "panic-debug-assertion"
+  | "round_ratio_any" ->
+      let m = mode_of (List.nth args 0) in
+      let i = z (List.nth args 1) and n = z (List.nth args 2) and d = z (List.nth args 3) in
+      let model = if round_ratio_pre_gen n d then "ok " ^ flag_name (round_ratio_gen (round_low_part m) i n d) else "panic-assert" in
+      let gots = if is_assert_panic got then [ "panic-assert" ] else got in
+      let fid = if got_str gots = model then " asis=same" else " asis=diff" in
+      let c = Zar.compare (Zar.abs n) (Zar.abs d) in
+      if Zar.sign d = 0 || c > 0 then
+        (if is_assert_panic got then pass ~nt:false ~extra:("cls=anyratio-outside" ^ fid) () else fail "panic-assertion")
+      else if c = 0 then begin
+        (* |num| = |den|: passes the assertion, outside the documented precondition; the nearest modes must still be right
+           (C10_round_ratio_boundary_nearest), the directed ones are judged against the as-is model only *)
+        let sg = Zar.of_int (Zar.sign d) in
+        let want = Zar.sub (spec_round m (Zar.mul sg (Zar.add (Zar.mul i d) n)) (Zar.abs d)) i in
+        if is_assert_panic got then pass ~nt:false ~extra:("cls=anyratio-boundary-refused" ^ fid) ()   (* a stricter assertion is within the documentation *)
+        else if directed m then (if got_str got = model then pass ~nt:false ~extra:("cls=anyratio-boundary-directed" ^ fid) () else fail model)
+        else expect ~nt:true ~extra:("cls=anyratio-boundary-nearest" ^ fid) ("ok " ^ adj_name want) got
+      end else
+        let sg = Zar.of_int (Zar.sign d) in
+        let want = Zar.sub (spec_round m (Zar.mul sg (Zar.add (Zar.mul i d) n)) (Zar.abs d)) i in
+        expect ~nt:(Zar.sign n <> 0) ~extra:("cls=anyratio-inside" ^ fid) ("ok " ^ adj_name want) got
+  | "wr_wp" -> judge_wr_wp args got
   | _ when op.[0] = 'r' && op <> "round" && op <> "repr_to_int" -> judge_rat op args got
   | _ when op.[0] = 'x' -> judge_rat op args got
   | _ -> judge_float op args got
